@@ -491,3 +491,24 @@ impl MinViolations {
         }
     }
 }
+
+// ------------------------------------------------------------------------------------------------
+// never trust a number the code under test reports
+
+/// Drain an iterator of the code under test without consulting its `size_hint` (no pre-allocation)
+/// and without following it for ever: stops after `cap` items and says so (`true` = truncated).
+pub fn drain_capped<T>(it: impl Iterator<Item = T>, cap: usize) -> (Vec<T>, bool) {
+    let mut out = Vec::new();
+    for x in it {
+        if out.len() >= cap {
+            return (out, true);
+        }
+        out.push(x);
+    }
+    (out, false)
+}
+
+/// The cap used for anything that should be bounded by the number of nodes of a cluster.
+pub fn node_cap(nodes: usize) -> usize {
+    4 * nodes + 16
+}
